@@ -51,8 +51,11 @@ def _calls(plat, u, onplatform):
              _reparse=lambda r: yt.parse_youtube_url(yt.normalize_youtube_url(u)))
     call(yt.extract_video_id_from_youtube_url, u, _checks=lambda r: [yt.is_youtube_video_id(r)])
     call(yt.normalize_youtube_url, u)
-    call(tw.parse_twitter_url, u)
-    call(tw.extract_screen_name_from_twitter_url, u)
+    # a screen name inside a record is non-empty and is not one of the routes the module itself refuses as a user ('i', 'home', ...)
+    _tw_ok = lambda name: bool(name) and name not in tw.TWITTER_SCREEN_NAME_BLACKLIST
+    call(tw.parse_twitter_url, u, _checks=lambda r: [_tw_ok(r.screen_name)] if type(r).__name__ == "TwitterUser"
+         else [_tw_ok(r.user_screen_name)] if type(r).__name__ == "TwitterTweet" else [])
+    call(tw.extract_screen_name_from_twitter_url, u, _checks=lambda r: [_tw_ok(r)])
     call(ig.parse_instagram_url, u, _checks=lambda r: ([ig.is_instagram_post_shortcode(r.id)] if hasattr(r, "id") else [])
          + ([ig.is_instagram_username(r.name)] if getattr(r, "name", None) is not None else []))
     call(ig.extract_username_from_instagram_url, u, _checks=lambda r: [ig.is_instagram_username(r)])
